@@ -231,8 +231,32 @@ fn exec_marker(r: AnyResult<AppResponse>) -> Option<u32> {
     ev.attributes.iter().find(|a| a.key == "id")?.value.parse().ok()
 }
 
-fn noop_exec(_d: DepsMut, _e: Env, _i: MessageInfo, _m: Empty) -> StdResult<Response> {
-    Ok(Response::new())
+/// every function of the Api, called with fixed (garbage) inputs: Ok/Err per call
+fn api_fingerprint(api: &dyn Api) -> String {
+    let f = |ok: bool| if ok { 'o' } else { 'e' };
+    let (h, sig, pk) = ([7u8; 32], [9u8; 64], [2u8; 33]);
+    let mut s = String::new();
+    s.push(f(api.addr_validate("not-an-address").is_ok()));
+    s.push(f(api.addr_canonicalize("not-an-address").is_ok()));
+    s.push(f(api.addr_humanize(&CanonicalAddr::from(vec![1u8; 20])).is_ok()));
+    s.push(f(api.secp256k1_verify(&h, &sig, &pk).is_ok()));
+    s.push(f(api.secp256k1_recover_pubkey(&h, &sig, 0).is_ok()));
+    s.push(f(api.secp256r1_verify(&h, &sig, &pk).is_ok()));
+    s.push(f(api.secp256r1_recover_pubkey(&h, &sig, 0).is_ok()));
+    s.push(f(api.ed25519_verify(&h, &sig, &h).is_ok()));
+    s.push(f(api.ed25519_batch_verify(&[&h[..]], &[&sig[..]], &[&h[..]]).is_ok()));
+    s.push(f(api.bls12_381_aggregate_g1(&[0u8; 48]).is_ok()));
+    s.push(f(api.bls12_381_aggregate_g2(&[0u8; 96]).is_ok()));
+    s.push(f(api.bls12_381_pairing_equality(&[0u8; 48], &[0u8; 96], &[0u8; 48], &[0u8; 96]).is_ok()));
+    s.push(f(api.bls12_381_hash_to_g1(cosmwasm_std::HashFunction::Sha256, b"m", b"d").is_ok()));
+    s.push(f(api.bls12_381_hash_to_g2(cosmwasm_std::HashFunction::Sha256, b"m", b"d").is_ok()));
+    api.debug("probe");
+    s
+}
+
+/// the probe contract reports what the Api it is handed answers (the builder's Api, whole)
+fn noop_exec(d: DepsMut, _e: Env, _i: MessageInfo, _m: Empty) -> StdResult<Response> {
+    Ok(Response::new().add_attribute("api", api_fingerprint(d.api)))
 }
 fn noop_query(_d: Deps, _e: Env, _m: Empty) -> StdResult<Binary> {
     to_json_binary(&Empty {})
@@ -301,6 +325,12 @@ where
     let other = app.api().addr_make("other");
     let code = app.store_code(Box::new(ContractWrapper::new(noop_exec, noop_exec, noop_query)));
     let inst = app.instantiate_contract(code, sender.clone(), &Empty {}, &[], "probe", None);
+    if let Ok(addr) = &inst {
+        // the Api a contract is handed answers like the Api the App was built with
+        let seen = app.execute_contract(sender.clone(), addr.clone(), &Empty {}, &[]).ok().and_then(|r| r.events.iter().flat_map(|e| e.attributes.iter()).find(|a| a.key == "api").map(|a| a.value.clone()));
+        let direct = api_fingerprint(app.api());
+        o.field.insert("api-in-contract".into(), if seen.as_deref() == Some(direct.as_str()) { None } else { Some(u32::MAX) });
+    }
     let wasm_marker = match &inst {
         Ok(addr) => {
             let default_addr = app.api().addr_humanize(&classic_canonical(code, 0)).ok();
@@ -473,6 +503,7 @@ fn check_builder(steps: &[(Slot, u32)], cx: &mut Cx) -> Result<(), Failure> {
         }
     }
     ensure!(!obs.field.contains_key("api-unknown-prefix"), "C20:builder-lost-component:api", "api uses an unknown prefix");
+    ensure!(obs.field.get("api-in-contract").copied().flatten().is_none(), "C20:builder-lost-component:api", "the Api handed to a contract does not answer like the Api the App was built with (steps {:?})", steps);
     // metamorphic: canonical order of the same final assignment
     let canon: Vec<(Slot, u32)> = want.iter().map(|(s, i)| (*s, *i)).collect();
     let mut rev = canon.clone();
